@@ -1,6 +1,6 @@
 (* C05 - genome-to-program translation is total and structure preserving. *)
 From Coq Require Import List Arith ZArith.
-From UEC Require Import Push.Syntax Push.Plushy.
+From UEC Require Import Push.Syntax Push.Plushy Push.PlushyRT.
 Import ListNotations.
 
 (* never fails: the fuel S (length g) handed to the recursive descent always suffices *)
@@ -28,8 +28,26 @@ Theorem C05_close_at_end : forall g, parse_top (g ++ [Close]) = parse_top g.
 Proof. exact close_at_end. Qed.
 Print Assumptions C05_close_at_end.
 
+(* an independent printer (instruction = its gene; block = its items then a close) is inverted by the
+   parser on every well-shaped program: a close ends the INNERMOST open block, and the blocks an
+   instruction opens are exactly the ones that follow it *)
+Theorem C05_roundtrip : forall p, shaped 0 p -> parse_top (unparse p) = Some p.
+Proof. exact parse_unparse. Qed.
+Print Assumptions C05_roundtrip.
+
+(* hence every parsed program is the parse of its own printed form (printing loses nothing the parser keeps) *)
+Theorem C05_canonical : forall g p, parse_top g = Some p -> parse_top (unparse p) = Some p /\ instrs (unparse p) = instrs g.
+Proof. exact parse_canonical_full. Qed.
+Print Assumptions C05_canonical.
+
 (* non-vacuity, and "a close ends the INNERMOST open block" on a concrete genome *)
 Example C05_example :
   parse_top [G IfElse; G When; G (PushI 1%Z); Close; G (PushI 2%Z); Close; G (PushI 3%Z); Close; Close; G Noop; G Unless]
   = Some [PI IfElse; PB [PI When; PB [PI (PushI 1%Z)]; PI (PushI 2%Z)]; PB [PI (PushI 3%Z)]; PI Noop; PI Unless; PB []].
 Proof. reflexivity. Qed.
+
+Example C05_roundtrip_example :
+  shaped 0 [PI IfElse; PB [PI When; PB [PI (PushI 1%Z)]]; PB []; PI Noop] /\
+  unparse [PI IfElse; PB [PI When; PB [PI (PushI 1%Z)]]; PB []; PI Noop]
+  = [G IfElse; G When; G (PushI 1%Z); Close; Close; Close; G Noop].
+Proof. split; [repeat constructor|reflexivity]. Qed.
